@@ -103,6 +103,12 @@ func init() {
 	}
 	harnessAPI["vfKnown"] = func(m *Machine, args []Value) Value {
 		id := goString(args[0].(Str))
+		if m.Cfg.ForeignFindings[id] {
+			if m.Decide(m.asTerm(args[1])) {
+				m.abort("assume-false", "")
+			}
+			return m.C.False
+		}
 		if !m.Cfg.OpenFindings[id] {
 			return m.C.False
 		}
